@@ -300,7 +300,8 @@ func (p *Prog) walk(f *Func, b *cfg.Block, st *pstate, out *[]*Path) {
 			if rs, ok := b.Stmt.(*ast.RangeStmt); ok && st.visits[b.Succs[0].Index] < 1 {
 				if id, isId := ast.Unparen(rs.X).(*ast.Ident); isId {
 					if v, _ := f.Pkg.TypesInfo.Uses[id].(*types.Var); v != nil {
-						if cur, known := st.vars[v]; known && cur != nil {
+						// (a list that a function literal of this function appends to is filled behind the path's back)
+						if cur, known := st.vars[v]; known && cur != nil && !capturedByLiteral(f, v) {
 							empty, nonEmpty = knownEmptyList(cur), knownNonEmptyList(cur)
 						}
 					}
@@ -1864,4 +1865,26 @@ func (p *Prog) expandRetSummaries(t *Term) *Term {
 		}
 	}
 	return nt
+}
+
+// capturedByLiteral: some function literal in f's body mentions v (it may be assigned there while the path does not see it).
+func capturedByLiteral(f *Func, v *types.Var) bool {
+	if f == nil || f.Body == nil {
+		return false
+	}
+	info := f.Pkg.TypesInfo
+	found := false
+	ast.Inspect(f.Body, func(n ast.Node) bool {
+		if fl, ok := n.(*ast.FuncLit); ok {
+			ast.Inspect(fl.Body, func(m ast.Node) bool {
+				if id, ok := m.(*ast.Ident); ok && info.Uses[id] == types.Object(v) {
+					found = true
+				}
+				return !found
+			})
+			return false
+		}
+		return !found
+	})
+	return found
 }
